@@ -33,13 +33,29 @@ class RaiseEx(Exception):
         return v.cls if isinstance(v, SObj) else type(v)
 
 
-class Decision:
-    __slots__ = ("d", "forced", "aux")
+def _site():
+    """where a fork is asked for: how many statements of the verified code this path has executed so far, the line of
+    the current one, and the Python call chain (checker, model or specification code) leading to the fork.  A faithful
+    re-execution of a recorded prefix meets its decisions at the same sites."""
+    import sys as _sys
+    f = _sys._getframe(2)
+    chain = []
+    n = 0
+    while f is not None and n < 12:
+        chain.append((f.f_code.co_name, f.f_lineno))
+        f = f.f_back
+        n += 1
+    return hash((sym.STEP, sym.WHERE, tuple(chain)))
 
-    def __init__(self, d, forced=False, aux=None):
+
+class Decision:
+    __slots__ = ("d", "forced", "aux", "fp")
+
+    def __init__(self, d, forced=False, aux=None, fp=None):
         self.d = d
         self.forced = forced
         self.aux = aux
+        self.fp = fp        # structural hash of the condition decided: re-execution must meet the same condition
 
     def __repr__(self):
         return "%s%s" % ("T" if self.d else "F", "!" if self.forced else "")
@@ -118,6 +134,7 @@ class PathCtx:
         self.solver.push()
         m = None
         backend = "z3"
+        first_unknown = False
         try:
             for e in extra:
                 self.solver.add(e)
@@ -126,6 +143,7 @@ class PathCtx:
             if r == z3.sat:
                 m = self.solver.model()
             elif r == z3.unknown:
+                first_unknown = True
                 asserts = list(self.solver.assertions())
                 s2 = z3.Tactic("qfbv").solver() if ex.logic == "QF_BV" else z3.Solver()
                 s2.set("timeout", ex.timeout_ms)
@@ -146,12 +164,44 @@ class PathCtx:
                                 m = s2.model()
         finally:
             self.solver.pop()
+            if first_unknown:
+                # z3's incremental solver is not to be trusted after a timeout (observed with z3 5.1.0: `sat` with a
+                # model that violates the assertions, where a fresh solver says `unsat`): it is replaced by a fresh
+                # one holding the same path condition
+                fresh = ex.new_solver()
+                fresh.add(*list(self.solver.assertions()))
+                self.solver = fresh
+                ex.solver = fresh
+                ex.solver_rebuilds += 1
         dt = time.time() - t0
         ex.solver_s += dt
         ex.queries += 1
         ex.by_backend[backend] = ex.by_backend.get(backend, 0) + 1
         self.last_backend = backend
         return r, m, dt
+
+    def _confirm_sat(self, m, extra):
+        """a counter-model is only believed when it satisfies the path condition and the negated goal it was asked for;
+        otherwise the question is put again to a fresh solver.  -> (result, model, backend)"""
+        def holds(model):
+            try:
+                return all(z3.is_true(model.eval(a, model_completion=True)) for a in list(self.solver.assertions()) + list(extra))
+            except z3.Z3Exception:
+                return False
+        if m is not None and holds(m):
+            return z3.sat, m
+        self.ex.unconfirmed_models = getattr(self.ex, "unconfirmed_models", 0) + 1
+        s2 = z3.Tactic("qfbv").solver() if self.ex.logic == "QF_BV" else z3.Solver()
+        s2.set("timeout", self.ex.timeout_ms)
+        s2.add(*list(self.solver.assertions()))
+        s2.add(*extra)
+        r = s2.check()
+        if r == z3.sat:
+            m2 = s2.model()
+            if holds(m2):
+                return z3.sat, m2
+            return z3.unknown, None
+        return r, None
 
     # ------------------------------------------------------------ forking
     def fork(self, e, aux=None):
@@ -160,11 +210,17 @@ class PathCtx:
             return True
         if z3.is_false(e):
             return False
+        fp = _site()
         if self.pos < len(self.decisions):
             dec = self.decisions[self.pos]
             self.pos += 1
-            if not dec.forced:
-                self._add(e if dec.d else z3.Not(e))
+            if dec.fp is not None and dec.fp != fp:
+                # re-execution along a recorded prefix met another condition than the one the decision was taken on
+                # (the interpreted code or a model behaved differently the second time): nothing may be concluded
+                raise Unsupported("re-execution of a path prefix diverged at decision %d" % (self.pos - 1))
+            # every replayed decision is asserted, forced ones too (they are implied by the path condition when the
+            # re-execution is faithful; asserting them keeps the path condition complete in any case)
+            self._add(e if dec.d else z3.Not(e))
             return dec.d
         rt, _, _ = self._check(e)
         rf, _, _ = self._check(z3.Not(e))
@@ -173,13 +229,13 @@ class PathCtx:
         if rt == z3.unknown or rf == z3.unknown:
             self.unknown_forks += 1
         if t and f:
-            self.ex.push(self.decisions + [Decision(False, False, aux)])
-            dec = Decision(True, False, aux)
+            self.ex.push(self.decisions + [Decision(False, False, aux, fp)])
+            dec = Decision(True, False, aux, fp)
             self._add(e)
         elif t:
-            dec = Decision(True, True, aux)
+            dec = Decision(True, True, aux, fp)
         elif f:
-            dec = Decision(False, True, aux)
+            dec = Decision(False, True, aux, fp)
         else:
             raise Infeasible()
         self.decisions.append(dec)
@@ -204,8 +260,10 @@ class PathCtx:
                     raise Unsupported("decision trace out of step in choose_int")
             else:
                 r, m, _ = self._check()
-                if r != z3.sat:
+                if r == z3.unsat:
                     raise Infeasible()
+                if m is None:
+                    raise Unsupported("the solvers could not decide whether further values of %s are feasible" % what)
                 v = m.eval(xe, model_completion=True).as_signed_long()
             if self.fork(xe == sym._bvv(v), aux=v):
                 return v
@@ -319,6 +377,8 @@ class PathCtx:
             return
         name = self.ex.label + "/no-overflow"
         r, m, dt = self._check(z3.Or(*[z3.Not(c) for c, _ in self.side]))
+        if r == z3.sat:
+            r, m = self._confirm_sat(m, [z3.Or(*[z3.Not(c) for c, _ in self.side])])
         if r == z3.unsat:
             self.ex.record(Obligation(name, "discharged", seconds=dt))
             if self.ex.cross:
@@ -352,6 +412,8 @@ class PathCtx:
             self.ex.record(Obligation(full, "discharged"))
             return
         r, m, dt = self._check(z3.Not(e))
+        if r == z3.sat:
+            r, m = self._confirm_sat(m, [z3.Not(e)])
         if r == z3.unsat:
             self.ex.record(Obligation(full, "discharged", seconds=dt, backend=self.last_backend))
             if self.ex.cross:
@@ -368,6 +430,8 @@ class PathCtx:
         if self.replaying():
             return
         r, m, dt = self._check()
+        if r == z3.sat:
+            r, m = self._confirm_sat(m, [])
         full = self.ex.label + "/" + name
         if r == z3.unsat:
             raise Infeasible()
@@ -538,9 +602,10 @@ class Explorer:
         self.loop_exit_seen = set()
         self.label = label
         self.logic = logic
-        self.solver = z3.SolverFor(logic) if logic else z3.Solver()
+        self.solver = self.new_solver()
+        self.solver_rebuilds = 0
         self.timeout_ms = timeout_ms
-        self.quick_ms = quick_ms
+        self.quick_ms = int(os.environ.get("PYVC_QUICK_MS", quick_ms))      # (experiments: force the fallback solvers)
         self.use_cvc5 = use_cvc5
         self.by_backend = {}
         self.stack = []
@@ -554,9 +619,14 @@ class Explorer:
         self.max_paths = max_paths
         self.max_depth = max_depth
         self.unknown_forks = 0
+        self.relocated = {}         # loop specification -> where it was applied instead of the place it was written for
+        self.by_reference_roles = set()     # roles of loop specifications bound to a parameter of the enclosing function
 
     def push(self, prefix):
         self.stack.append(prefix)
+
+    def new_solver(self):
+        return z3.SolverFor(self.logic) if self.logic else z3.Solver()
 
     def record(self, ob):
         agg = self.obligations.setdefault(ob.name, {"checks": 0, "status": "discharged", "seconds": 0.0})
@@ -586,9 +656,11 @@ class Explorer:
                                        detail="more than %d paths" % self.max_paths))
                 break
             self.paths += 1
+            self.solver = self.new_solver()         # one solver per path: nothing survives from an earlier path
             c = PathCtx(self, prefix)
             sym.set_ctx(c)
-            self.solver.push()
+            sym.STEP = 0
+            sym.WHERE = 0
             nfail = len(self.failed) + len(self.undecided)
             try:
                 body(c)
@@ -610,6 +682,5 @@ class Explorer:
                                        detail="unsupported: %s" % (e,), path=repr(c.decisions)))
             finally:
                 self.unknown_forks += c.unknown_forks
-                self.solver.pop()
                 sym.set_ctx(None)
         return self
